@@ -1996,11 +1996,16 @@ impl<W: std::io::Write + std::io::Seek> Encoder<W> {
     /// or if the frame's parameters are not a match
     /// for the encoder's.
     fn encode(&mut self, frame: &Frame) -> Result<(), Error> {
+        // a frame's sample count must fit the frame header's block size field
+        // (more can be pending if an earlier write failed part-way)
+        let frame_samples =
+            u16::try_from(frame.pcm_frames()).map_err(|_| Error::InvalidBlockSize)?;
+
         // drop in a new seekpoint
         self.seekpoints.push(EncoderSeekPoint {
             sample_offset: self.samples_written,
             byte_offset: Some(self.writer.count),
-            frame_samples: frame.pcm_frames() as u16,
+            frame_samples,
         });
 
         // update running total of samples written
